@@ -138,7 +138,7 @@ impl SenderInnerS {
 //@@ param fail : bool
 //@@ subst `fail.into()` => `Some(fail)` rule=R16 unless `fail\.into\(\)`
 //@@ subst `send_on_control_link(inner, sendable) ?` => `send_on_control_link(inner, sendable)?.recv()` rule=R3
-//@@ subst `.map_err(|_v0| match inner.link.session_stop_reason.get() { Some(reason) => LinkStateError::SessionStopped(reason.clone()), None => LinkStateError::IllegalState, })` => `.map_err(|_v0: RecvError| -> (o: LinkStateError) { stopped_error() })` rule=R17
+//@@ subst `.map_err(|_v0| match inner.link.session_stop_reason.get() { Some(reason) => LinkStateError::SessionStopped(reason.clone()), None => LinkStateError::IllegalState, })` => `.map_err(|_v0: RecvError| -> (o: LinkStateError) { stopped_error() })` rule=R17 unless `\.map_err\(`
 //@@ subst `|state| { if let DeliveryState::Rejected(rejected) = state { ControllerSendError::Rejected(rejected) } else { ControllerSendError::IllegalDeliveryState } }` => `|state: DeliveryState| -> (o: ControllerSendError) ensures (match state { DeliveryState::Rejected(rj) => o == ControllerSendError::Rejected(rj), _ => o is IllegalDeliveryState }) { if let DeliveryState::Rejected(rejected) = state { ControllerSendError::Rejected(rejected) } else { ControllerSendError::IllegalDeliveryState } }` rule=R18
 //@@ spec
     ensures
@@ -153,7 +153,7 @@ impl SenderInnerS {
 //@@ nowhere
 //@@ param inner : &mut SenderInnerS
 //@@ subst `send_on_control_link(inner, sendable) ?` => `send_on_control_link(inner, sendable)?.recv()` rule=R3
-//@@ subst `.map_err(|_v0| match inner.link.session_stop_reason.get() { Some(reason) => LinkStateError::SessionStopped(reason.clone()), None => LinkStateError::IllegalState, })` => `.map_err(|_v0: RecvError| -> (o: LinkStateError) { stopped_error() })` rule=R17
+//@@ subst `.map_err(|_v0| match inner.link.session_stop_reason.get() { Some(reason) => LinkStateError::SessionStopped(reason.clone()), None => LinkStateError::IllegalState, })` => `.map_err(|_v0: RecvError| -> (o: LinkStateError) { stopped_error() })` rule=R17 unless `\.map_err\(`
 //@@ subst `|state| { if let DeliveryState::Rejected(rejected) = state { ControllerSendError::Rejected(rejected) } else { ControllerSendError::IllegalDeliveryState } }` => `|state: DeliveryState| -> (o: ControllerSendError) ensures (match state { DeliveryState::Rejected(rj) => o == ControllerSendError::Rejected(rj), _ => o is IllegalDeliveryState }) { if let DeliveryState::Rejected(rejected) = state { ControllerSendError::Rejected(rejected) } else { ControllerSendError::IllegalDeliveryState } }` rule=R18
 //@@ spec
     ensures
